@@ -120,13 +120,62 @@ def run(ctx: Context, rep) -> None:
            where=write.qualname, construct="shape loop -> self._write(values)",
            message="the check loop dominates _write")
     hv = ctx.fn("sedpack.io.metadata:Attribute.has_variable_size")
+    # truth table of has_variable_size over {dtype} x {shape empty or not},
+    # whatever its syntactic form
+    from sa import dtypeval, pathval
+    from sa.cfg import CFG as _CFG
+    table = {}
+    undecided = False
+    for d in ("bytes", "str", "int8", "float32"):
+        for empty in (True, False):
+            ev = dtypeval.DtypeEval("self.dtype", d, hv.module.globals)
+
+            def orc(e, ev=ev, empty=empty):
+                if isinstance(e, ast.Compare) and len(e.ops) == 1 and \
+                        dotted(e.left) == "self.shape" and isinstance(
+                            e.comparators[0], ast.Tuple) and \
+                        not e.comparators[0].elts:
+                    if isinstance(e.ops[0], ast.Eq):
+                        return empty
+                    if isinstance(e.ops[0], ast.NotEq):
+                        return not empty
+                if isinstance(e, ast.UnaryOp) and isinstance(e.op, ast.Not) \
+                        and dotted(e.operand) == "self.shape":
+                    return empty
+                return ev.oracle(e)
+
+            def tv(e):
+                if isinstance(e, ast.Constant):
+                    return bool(e.value)
+                if isinstance(e, ast.BoolOp):
+                    vals = [tv(x) for x in e.values]
+                    if isinstance(e.op, ast.And):
+                        return False if False in vals else (
+                            None if None in vals else True)
+                    return True if True in vals else (
+                        None if None in vals else False)
+                if isinstance(e, ast.UnaryOp) and isinstance(e.op, ast.Not):
+                    v = tv(e.operand)
+                    return None if v is None else not v
+                return orc(e)
+
+            cfg_h = _CFG(hv, oracle=orc)
+            live_h = cfg_h.reachable([cfg_h.entry],
+                                     follow=lambda a, b, lab: lab != "exc")
+            vals = {tv(n.ast.value) for n in cfg_h.nodes if n in live_h and
+                    n.kind == "stmt" and isinstance(n.ast, ast.Return) and
+                    n.ast.value is not None}
+            if len(vals) != 1 or None in vals:
+                undecided = True
+            table[(d, empty)] = vals.pop() if len(vals) == 1 else None
+    ok_hv = not undecided and all(
+        v == (d in ("bytes", "str") and empty) for (d, empty), v in
+        table.items())
     rets = [n for n in hv.body_nodes() if isinstance(n, ast.Return)]
-    ok_hv = len(rets) == 1 and isinstance(rets[0].value, ast.BoolOp) and \
-        isinstance(rets[0].value.op, ast.And) and "shape == ()" in \
-        ast.unparse(rets[0].value) and "dtype in ['bytes', 'str']" in \
-        ast.unparse(rets[0].value)
     rep.ob("C18.pre", ok_hv, loc=hv.loc(), where=hv.qualname,
-           construct=short(rets[0]) if rets else "<none>",
+           construct="truth table " + ", ".join(
+               f"{d}/{'()' if e else 'shape'}={v}" for (d, e), v in
+               sorted(table.items())),
            message="variable size means: dtype bytes/str AND empty declared "
            "shape")
 
